@@ -429,7 +429,7 @@ class Scripted:
             shape = size[0] if len(size) == 1 and not isinstance(size[0], int) else size
             v = next_z(numel(shape))
             emit(v)
-            return t.tensor(v, dtype=kw.get("dtype") or t.float64).reshape(tuple(shape) if not isinstance(shape, int) else (shape,))
+            return t.tensor(v, dtype=kw.get("dtype") or t.get_default_dtype()).reshape(tuple(shape) if not isinstance(shape, int) else (shape,))
 
         t.randn = randn
 
@@ -595,9 +595,8 @@ def execute_run(cfg, tape_seed):
                     del sc.forced[:]
                     del sc.events[n_ev:]
                 mean = cols[n_]  # z = 0
-                A = [[cols[j_][i_] - mean[i_] for j_ in range(n_)] for i_ in range(n_)]
-                cov = [[sum(A[i_][k_] * A[j_][k_] for k_ in range(n_)) for j_ in range(n_)] for i_ in range(n_)]
-                return {"mean": mean, "cov": cov}
+                At = torch.tensor(cols[:n_], dtype=torch.float64) - torch.tensor(mean, dtype=torch.float64)  # rows = A e_j
+                return {"mean": mean, "cov": (At.T @ At).tolist()}
 
         def step():
             cur.clear()
@@ -608,7 +607,8 @@ def execute_run(cfg, tape_seed):
             cur["masses"] = {j: o2._mass_matrix.tensor.detach().clone().tolist()
                              for j, o2 in enumerate(ops) if hasattr(o2, "_mass_matrix")}
             if is_hmc:
-                cur["momentum_law"] = momentum_law()
+                if op.mass_matrix.shape[0] <= 40 or not records:
+                    cur["momentum_law"] = momentum_law()
                 cur["mass_now"] = cur["masses"][idx]
                 del kin_ims[:]
                 cur["ims0"] = len(op._integrator.im_args)
@@ -1113,6 +1113,9 @@ def block_true_hastings(o, r):
     if math.isinf(r["hr"]):
         return None, None
     if len(r.get("modes", [])) != 2:
+        if math.isnan(r["hr"]):
+            return None, "the block update returned nan"
+
         return None, "expected two mode-finder calls (forward and backward)"
     g0, t0 = np.array(r["before"][o["pidx"][0]]), r["before"][o["pidx"][1]][0]
     g1, t1 = np.array(r["proposed"][o["pidx"][0]]), r["proposed"][o["pidx"][1]][0]
@@ -1135,10 +1138,19 @@ def block_true_hastings(o, r):
     def logn(x, mode, Qm):
         P = Qm + np.diag(w * np.exp(-mode))
         h = w * np.exp(-mode) * (mode + 1) - c
-        mu = np.linalg.solve(P, h)
-        sign, logdet = np.linalg.slogdet(P)
+        if d > 40:
+            # large fields: float64 LU solve / slogdet of torch's LAPACK (this numpy build is very slow beyond ~100 x 100);
+            # still a different route from the code's Cholesky + triangular solves, and in the log domain
+            import torch as _t
+
+            Pt = _t.tensor(P, dtype=_t.float64)
+            mu = _t.linalg.solve(Pt, _t.tensor(h, dtype=_t.float64)).numpy()
+            logdet = float(_t.linalg.slogdet(Pt)[1])
+        else:
+            mu = np.linalg.solve(P, h)
+            logdet = np.linalg.slogdet(P)[1]
         e = x - mu
-        return 0.5 * logdet - 0.5 * e @ P @ e - 0.5 * d * math.log(2 * math.pi)
+        return 0.5 * logdet - 0.5 * e @ (P @ e) - 0.5 * d * math.log(2 * math.pi)
 
     mf, mb = np.array(r["modes"][0]), np.array(r["modes"][1])
     if not (np.all(np.isfinite(mf)) and np.all(np.isfinite(mb))) or max(np.abs(mf).max(), np.abs(mb).max()) > 30:
@@ -1485,6 +1497,71 @@ def check_log_files(ck: Check, cfg, res, found, tseed):
                               {"clause": "the row written for an iteration does not hold the parameter values the chain had at that iteration",
                                "logger": spec, "sample": s_, "row": r_, "state_in_process": state}, cfg, max(s_ - 1, 0), tseed))
                 break
+
+
+def size_regime_cases(ck: Check, rng, found, thorough):
+    """SIZE REGIMES (checklist 23): the operators at dimensions where a non-log-domain normaliser over/underflows — the GMRF
+    block update on fields of 50/200/400 cells with precision 1/10/100 in float32 and float64, HMC / scaler / sliding window on a
+    few hundred coordinates.  Real MCMC.run, scripted tape; every reported Hastings ratio must be finite and equal to the
+    independent log-domain recomputation (check_records), and the operator must not be rejected identically."""
+    regimes = [(50, "float32", 10.0), (200, "float64", 10.0), (400, "float64", rng.choice([1.0, 10.0, 100.0]))]
+    if thorough:
+        regimes += [(50, "float64", 100.0), (100, "float32", 1.0), (400, "float64", 10.0), (200, "float32", 10.0)]
+    for d, dt, tau in regimes:
+        ntaxa = max(20, d // 2)
+        coal_t, cur_t = [], 0.0
+        for k in range(ntaxa - 1):
+            cur_t += rng.expovariate(1.0) * 2.0 / (ntaxa - k) + 1e-3
+            coal_t.append(cur_t)
+        t = {"kind": "skygrid", "sampling": [0.0] * ntaxa, "coalescent": coal_t, "cutoff": coal_t[-1] * 0.9,
+             "conc": [2.0], "rate": [1.0], "init": [[rng.uniform(-0.3, 0.3) for _ in range(d)], [tau]]}
+        if dt == "float32":
+            t["dtype"] = "float32"
+        cfg = {"family": "size", "target": t, "iterations": 14, "loggers": [], "oracle_only": True, "exact_expected": False,
+               "ops": [{"kind": "block", "pidx": [0, 1], "weight": 1.0, "target": 0.24, "scale": rng.choice([1.0, 1.5, 2.0]), "adapt": False}]}
+        if dt == "float32":
+            cfg["default_dtype"] = "float32"
+        run_size_cfg(ck, rng, cfg, found, f"block/d={d}/{dt}/tau={tau}")
+    # HMC, scaler and sliding window on a few hundred coordinates
+    for n in ([300] if not thorough else [300, 600]):
+        scale = [rng.choice([0.5, 1.0, 2.0]) for _ in range(n)]
+        t = {"kind": "normal", "loc": [rng.uniform(-1, 1) for _ in range(n)], "scale": scale, "init": [[rng.uniform(-1, 1) for _ in range(n)]]}
+        cfg = {"family": "size", "target": t, "iterations": 20, "loggers": [{"file": True, "every": 5, "delimiter": None}],
+               "oracle_only": True, "exact_expected": False,
+               "ops": [{"kind": "hmc", "pidx": [0], "weight": 2.0, "target": 0.8, "scale": 0.05, "adapt": False, "steps": 5,
+                        "mass": [1.0] * n, "G": None, "b": None},
+                       {"kind": "scaler", "pidx": [0], "weight": 1.0, "target": 0.24, "scale": 0.9, "adapt": False},
+                       {"kind": "window", "pidx": [0], "weight": 1.0, "target": 0.24, "scale": 0.5, "adapt": False}]}
+        run_size_cfg(ck, rng, cfg, found, f"hmc+scaler+window/n={n}")
+
+
+def run_size_cfg(ck, rng, cfg, found, label):
+    tseed = rng.randrange(1 << 30)
+    try:
+        res = execute_run(cfg, tseed)
+    except Exception as e:
+        ck.mismatch("size-regime configuration could not be built / run", {"label": label, "error": f"{type(e).__name__}: {str(e)[:150]}"})
+        return
+    if res["error"]:
+        ck.mismatch("MCMC.run raised at a large size", {"label": label, "error": res["error"]})
+        found.append(("MCMC.run:raised-at-size", {"clause": "MCMC.run raised at this size: " + res["error"], "size": label}, cfg, 0, tseed))
+        return
+    n0 = len(found)
+    check_records(ck, cfg, res, found, "size/" + label)
+    check_log_files(ck, cfg, res, found, tseed)
+    for j in range(n0, len(found)):
+        found[j] = found[j] + (tseed,) if len(found[j]) == 4 else found[j]
+    for oi, o in enumerate(cfg["ops"]):
+        mine = [r for r in res["records"] if r["op"] == oi]
+        ck.case(("size", label, o["kind"]), {"via": "MCMC.run at size " + label, "operator": o["kind"], "moves": len(mine),
+                                             "accepted": sum(r["accepted"] for r in mine),
+                                             "hastings": [r["hr"] for r in mine[:4]]}, bucket="size/" + label.split("/")[0])
+        if len(mine) >= 6 and not any(r["accepted"] for r in mine):
+            bad_hr = [r["hr"] for r in mine if not math.isfinite(r["hr"])]
+            found.append((f"{o['kind']}:never-accepted-at-size",
+                          {"clause": "at this size every move of the operator was rejected (%d of %d with a non-finite Hastings ratio): "
+                                     "the parameter never moves" % (len(bad_hr), len(mine)), "size": label,
+                           "hastings_ratios": [r["hr"] for r in mine[:6]]}, cfg, 0, tseed))
 
 
 def op_class(kind):
@@ -1982,6 +2059,10 @@ def run(ck: Check):
             tune_sequences(ck, drv, rng, 200 if thorough else 40, found)
             precision_cases(ck, drv, rng, 400 if thorough else 80, found)
         probe_boldness(ck, rng)
+        try:
+            size_regime_cases(ck, rng, found, thorough)
+        except Exception as e:
+            ck.mismatch("size-regime cases stopped", {"error": f"{type(e).__name__}: {str(e)[:200]}"})
         # construction routes, deep copies (checklist items 1 and 5)
         try:
             c15_routes.simple_operator_routes(ck, rng, found, Scripted, thorough)
